@@ -1029,7 +1029,8 @@ func pipeSim(r *simcore.Run) {
 				fl = append(fl, host+"="+faults[host].Kind.String())
 			}
 		}
-		r.Logf("req%d %s %s [%s] pdp-allow=%v faults=[%s] -> positive=%v status=%s user=%q upstream-hits=%d calls=%v", q, path, entry, c, cur.pdpAllow, strings.Join(fl, " "), ans.positive, ans.status, ans.user, ans.upHits, callOrder)
+		// (the query may carry a freshly signed token: its bytes differ per execution and stay out of the trace)
+		r.Logf("req%d %s %s [%s] pdp-allow=%v faults=[%s] -> positive=%v status=%s user=%q upstream-hits=%d calls=%v", q, strings.SplitN(path, "?", 2)[0], entry, c, cur.pdpAllow, strings.Join(fl, " "), ans.positive, ans.status, ans.user, ans.upHits, callOrder)
 		if panicked != nil {
 			r.FailProp("C01", "panic-escaped-entry-point", entry, "a panic escaped the %s entry point: %v", entry, panicked)
 			break
